@@ -18,7 +18,7 @@ LEVEL = "exploration"
 SHARDS = {"quick": 8, "thorough": 16}
 RULE = ("response frames built from every valid kind (state, capabilities, properties B1/B0, energy, humidity): truncated to every "
         "shorter body length (body check and outer checksum recomputed so validation passes; also the empty frame and frames "
-        "shorter than the header), every count byte, size byte and capability value byte set to 0..255, the header length byte inconsistent with the real length, every response id 0..255 with random "
+        "shorter than the header), every count byte, size byte and capability value byte set to 0..255, the header length byte inconsistent with the real length, a well-formed header-only or full frame followed by 1..48 trailing bytes (padding or the start of another frame), every response id 0..255 with random "
         "bodies of length 0..60 and frame types 0..7, oversized frames, and fields pointing past the end; delivered alone or in "
         "mixes [bad*, good, bad*] as the answer to every request of an operation (refresh, apply with/without pending property "
         "updates, get_capabilities first/additional page, toggle_display, start_self_clean, and short sequences of them under the same device). Oracle: the operation returns "
@@ -78,6 +78,13 @@ def make_frame(spec: dict) -> bytes:
             f[1] = spec["val"] & 0xFF
         f[-1] = rc.checksum(bytes(f[1:-1]))
         return bytes(f)
+    if t == "padded":
+        # a well-formed (possibly header-only) frame followed by bytes that do not belong to it (block padding, the
+        # start of the next frame): the length byte and checksum describe only the leading part
+        lead = short_frame(spec["k"]) if spec.get("k") is not None else RK.valid_frame(spec["kind"], 1)
+        pad = spec["extra"]
+        tail = {"zero": bytes(pad), "pkcs": bytes([pad & 0xFF]) * pad, "frame": (RK.valid_frame("state", 1) * 3)[:pad]}[spec.get("fill", "zero")]
+        return lead + tail
     if t == "badsum":
         f = bytearray(RK.valid_frame(spec["kind"], 1))
         f[-1] ^= 0x55
@@ -260,6 +267,15 @@ def _specs(quick: bool, rnd: random.Random) -> list:
             specs.append({"t": "lenbyte", "kind": kind, "val": v})
         for k in range(0, n - 12, 3 if quick else 1):
             specs.append({"t": "lenbyte", "kind": kind, "k": k})
+    # a well-formed short or full frame followed by trailing bytes
+    for k in range(2, 13):
+        for extra in sorted({1, 2, 5, 13 - k, 14 - k, 16, 16 - k % 16, 40}):
+            if extra > 0:
+                for fill in ("zero", "pkcs", "frame"):
+                    specs.append({"t": "padded", "k": k, "extra": extra, "fill": fill})
+    for kind in RK.KINDS:
+        for extra in (1, 5, 16):
+            specs.append({"t": "padded", "kind": kind, "extra": extra, "fill": "pkcs"})
     # every response id with bodies of several lengths, every frame type
     for rid in range(256):
         lens = (0, 1, 2, 3, 4, 5, 14, 15, 16, 18, 19, 20, 24, 40, 60) if not quick else (0, 2, 4, 15, 19, 30)
@@ -307,6 +323,8 @@ def run(ctx) -> None:
         st.fixed_dictionaries({"t": st.just("oversize"), "kind": st.sampled_from(RK.KINDS), "extra": st.integers(1, 400)}),
         st.fixed_dictionaries({"t": st.just("badsum"), "kind": st.sampled_from(RK.KINDS)}),
         st.fixed_dictionaries({"t": st.just("lenbyte"), "kind": st.sampled_from(RK.KINDS), "val": st.integers(0, 255)}),
+        st.fixed_dictionaries({"t": st.just("padded"), "k": st.integers(2, 12), "extra": st.integers(1, 48), "fill": st.sampled_from(["zero", "pkcs", "frame"])}),
+        st.fixed_dictionaries({"t": st.just("padded"), "kind": st.sampled_from(RK.KINDS), "extra": st.integers(1, 48), "fill": st.sampled_from(["zero", "pkcs", "frame"])}),
         st.fixed_dictionaries({"t": st.just("lenbyte"), "kind": st.sampled_from(RK.KINDS), "k": st.integers(0, 70), "val": st.just(0)}),
     )
     cases = st.fixed_dictionaries({"op": st.sampled_from(OPS), "good": st.booleans(), "pre": st.lists(spec, max_size=2),
